@@ -649,6 +649,15 @@ impl CommandHub {
             }
         };
 
+        // A terminal answer (Ok / Failure) retires its in-flight id: a worker that
+        // answers the same request twice must not be counted twice, otherwise the
+        // task reaches its expected count before another worker has answered.
+        let terminal_id = matches!(
+            ResponseStatus::try_from(response.status),
+            Ok(ResponseStatus::Ok | ResponseStatus::Failure)
+        )
+        .then(|| response.id.clone());
+
         let client = &mut task
             .job
             .client_token()
@@ -656,6 +665,10 @@ impl CommandHub {
         task.job
             .get_gatherer()
             .on_message(&mut self.server, client, worker_id, response);
+
+        if let Some(id) = terminal_id {
+            self.server.in_flight.remove(&id);
+        }
     }
 
     fn handle_finishing_task(&mut self, task_id: TaskId, task: TaskContainer, timed_out: bool) {
